@@ -96,6 +96,37 @@ BUILT["C03"] = (
     "Trusts the LASFile/HeaderItem constructors to hold what they are given (snapshot taken before write); field contents outside the palettes are not covered.",
 )
 
+BUILT["C11"] = (
+    "exploration",
+    "exhaustive enumeration of (input file, writer configuration) with 4 read->write cycles on the real reader and writer; canonical content of consecutive cycles compared",
+    "Every input (example corpus, generated family incl. DLM and wrap variants, one-step mutations: duplicated/blank/"
+    "case-variant mnemonics, .1IN units, emptied values, lengthened fields) under every writer configuration within the "
+    "deviation bound is cycled read->write four times; from the first re-read on, header items (numerically) and curve "
+    "data must not change; an own output that cannot be read or re-written is reported. Three genuine defects found "
+    "this way are recorded as known findings with narrow signatures (RC18, RC25, RC26).",
+    "Inputs whose first read or first write raises are outside the statement and skipped (counted).",
+)
+BUILT["C12"] = (
+    "exploration",
+    "exhaustive enumeration of (input, read case) x equal-precision writer configurations within a deviation bound; each output read back and compared with the default configuration's",
+    "For every input (corpus, generated, mutations, and the ~Well family whose value/description order depends on "
+    "version and mnemonic, as 1.2 and 2.0 sources) read with mnemonic_case upper and preserve, every writer "
+    "configuration within 2 (quick) / 3 (thorough) deviations over version, wrap, field width, spacers, data width, "
+    "mnemonics header and data-section header yields, after reading back, the same header items (VERS/WRAP apart) "
+    "and curve data as the default configuration.",
+    "Equality with the default for every configuration implies pairwise equality; DLM TAB/COMMA inputs and text samples with blanks are C11's known findings and skipped here.",
+)
+BUILT["C16"] = (
+    "model_checking",
+    "explicit-state BFS over histories of edits and writes on real LASFile objects; frame, repeat and truthfulness invariants on every write transition",
+    "From 12 roots (scratch and read LASFiles: increasing/decreasing/irregular/single-sample index, units present or "
+    "not, STOP/STRT disagreeing with data, 1.2, wrapped, text curve, duplicates) every history up to depth 3 (quick) / "
+    "4 (thorough) over 11 write configurations and 6 edits is executed; each write must (a) change nothing outside the "
+    "statement's allow-list (full snapshot diff), (b) be byte-identical and side-effect free when it repeats the "
+    "previous write, (c) when the index is dirty, state STRT/STOP/STEP and units truthfully in read(output).",
+    "index_initial (private change-detection anchor) is not protected content; truthfulness only required under the statement's trigger.",
+)
+
 PENDING_REASON = "check not built yet in this round (design in DESIGN.md section 3); nothing is claimed for it"
 
 
